@@ -46,12 +46,12 @@ func Run(c *core.Ctx) {
 		r3(c, s, p, env)
 	}
 	r5(c, p)
-	c.Expect("R1.envelope", 16)
-	c.Expect("R2.offset", 8)
-	c.Expect("R3.one-db", 2)
+	c.Expect("R1.envelope", 25)
+	c.Expect("R2.offset", 9)
+	c.Expect("R3.one-db", 4)
 	c.Expect("R3.barrier", 2)
 	c.Expect("R3.automaton", 22)
-	c.Expect("R5.resume", 14)
+	c.Expect("R5.resume", 16)
 }
 
 // ---------------------------------------------------------------------------
@@ -475,7 +475,8 @@ func r2(c *core.Ctx, s *c03.Sender, p *c03.Parser, e *envelope) {
 		}
 	}
 	n := c03.ReportWriters(c, rule, "base-writer/",
-		"The base therefore changes under the parser: the Offset stamped on a command (and stored by its batch's checkpoint) is no longer `offset at sync start + bytes decoded`, so resuming from the checkpoint loses or repeats commands.")
+		"The base therefore changes under the parser: the Offset stamped on a command (and stored by its batch's checkpoint) is no longer `offset at sync start + bytes decoded`. "+
+			"Witness: the source sends 1 KiB/s; after three ACK ticks the base is start+6144 although 3072 bytes were received; the command that ends at stream position 3072 is stamped start+6144+3072, its checkpoint stores that, and a restart issues PSYNC <runid> start+9217: the commands in between are never applied (or the source answers FULLRESYNC).")
 	if n == 0 {
 		c.Undecidedf(rule, "base-writer", token.NoPos, "no writer of ds.sourceOffset found")
 	}
@@ -603,7 +604,7 @@ func r5(c *core.Ctx, p *c03.Parser) {
 	}
 	c.Check(rule, "Sync/runid-to-psync", pcall.Pos(), argIdx >= 0, "the run id loaded from the checkpoint must be handed to sendPSyncCmd: with another run id the source answers FULLRESYNC and the stored offset is meaningless")
 	clobber := func(n ast.Node) bool {
-		if n == ast.Node(load) {
+		if n == ast.Node(load) || isPsyncCall(n) {
 			return false
 		}
 		switch x := n.(type) {
